@@ -3,7 +3,7 @@
    functions map to OCaml's); nat, positive, N, Z and byte stay the extracted inductives. *)
 From Coq Require Extraction.
 From Coq Require Import ExtrOcamlBasic.
-From KV Require Import Lib.Bytes Model.Date Spec.Calendar Model.Router Spec.RouterSpec Model.Headers Spec.HeaderStore Model.Parser Spec.HttpGrammar Spec.ClSpec Model.Body Spec.ChunkedSpec Model.Server Spec.Framing Spec.ConnSpec Spec.ConnKnown Model.Printer Spec.MessageSpec Model.Pool Model.Epoll Model.Memory.
+From KV Require Import Lib.Bytes Model.Date Spec.Calendar Model.Router Spec.RouterSpec Model.Headers Spec.HeaderStore Model.Parser Spec.HttpGrammar Spec.ClSpec Model.Body Spec.ChunkedSpec Model.Server Spec.Framing Spec.ConnSpec Spec.ConnKnown Model.Printer Spec.MessageSpec Spec.PrinterSpec Spec.PrinterSpecGen Model.Pool Model.Epoll Model.Memory.
 
 Extraction Language OCaml.
 Extraction "model.ml"
@@ -11,7 +11,7 @@ Extraction "model.ml"
   Date.format_http_date Date.cache_run Date.cache_init
   Router.match_route RouterSpec.spec_route RouterSpec.wf_table
   Headers.hstep Headers.new_headers Headers.get Headers.get_all Headers.token_values Headers.get_count
-  HeaderStore.store_step HeaderStore.spec_cl HeaderStore.eval_chunked HeaderStore.eval_close HeaderStore.lookup_all HeaderStore.lookup_last HeaderStore.tokens
+  PrinterSpecGen.printable_st PrinterSpecGen.norm_field HeaderStore.store_step HeaderStore.spec_cl HeaderStore.eval_chunked HeaderStore.eval_close HeaderStore.lookup_all HeaderStore.lookup_last HeaderStore.tokens
   Parser.parse_request Parser.parse_response Parser.method_str Parser.uri_path Parser.uri_query Parser.uri_scheme Parser.uri_authority Parser.uri_path_and_query
   HttpGrammar.strict_head HttpGrammar.headers_of HttpGrammar.sfield_pairs HttpGrammar.render HttpGrammar.rfc_head HttpGrammar.cl_consistent ClSpec.cl_consistent_rfc
   HttpGrammar.target_path HttpGrammar.target_query HttpGrammar.field_pairs HttpGrammar.render_target
